@@ -667,6 +667,62 @@ pub fn run(ctx: &mut Ctx) {
         for m in mocks.iter_mut() { m.delete(); }
     }
 
+    // ---- thorough tier: a file of more than 4 GiB (u32 arithmetic on lengths must not be involved anywhere): 513 terms, each the
+    // whole of one 8 MiB xorb, served warm from the chunk cache after the first fetch; the 4 GiB output is checked by length and by
+    // sampled positions, not read into memory; monitors only (the list-based model is not run on 4 GiB)
+    if !quick {
+        let mut rng = ctx.rng.fork(0xC17_9000);
+        let chunks: Vec<Vec<u8>> = (0..64).map(|_| rng.bytes(128 * 1024)).collect();
+        let mut ser = Vec::new(); let mut ser_off = vec![0u32];
+        for c in &chunks { cas_object::serialize_chunk(c, &mut ser, Some(CompressionScheme::None)).expect("serialize_chunk"); ser_off.push(ser.len() as u32); }
+        let xorb = Xorb { hash: [rng.next(), rng.next(), rng.next(), rng.next()], chunks, ser, ser_off };
+        let nterms = 513usize;
+        let plan = PlanSpec { id: 9_000_000, xorbs: vec![xorb], terms: (0..nterms).map(|_| TermSpec { xorb: 0, s: 0, e: 64 }).collect(),
+                              fetch: vec![FetchSpec { xorb: 0, s: 0, e: 64, url_path: "/huge/x0".into() }], shared_url: false, delay_ms: 0 };
+        let mut mocks = plan.register(&server, &mut rng);
+        let term: Vec<u8> = plan.term_bytes(&plan.terms[0]);
+        let total: u64 = term.len() as u64 * nterms as u64;
+        let whole = CallSpec { first: 0, last_excl: nterms, offset: 0, range: None, len_delta: vec![], drop_fetch_of_term: None, extra_tail: 0, class: "huge-total" };
+        for writer in [Writer::Seq, Writer::Par] {
+            let (terms, fi) = build_args(&plan, &whole, env.server, 0);
+            let client = new_client(&env.pool, Some((tmp_root.join(format!("cache_huge_{writer:?}")), 1 << 28)));
+            let out_path = env.fresh_path("huge");
+            let provider = OutputProvider::File(FileProvider::new(out_path.clone()));
+            let res = env.pool.external_run_async_task(async move {
+                let fi = Arc::new(fi);
+                match writer {
+                    Writer::Seq => client.reconstruct_file_to_writer(terms, fi, 0, None, &provider, None).await,
+                    Writer::Par => client.reconstruct_file_to_writer_parallel(terms, fi, 0, None, &provider, None).await,
+                }
+            });
+            let flen = std::fs::metadata(&out_path).map(|m| m.len()).unwrap_or(0);
+            let replay = format!("{{\"suite\":\"reconstruct\",\"seed\":{},\"huge_total\":\"{nterms} terms of {} bytes, writer {writer:?}\"}}", ctx.seed, term.len());
+            match res {
+                Ok(Ok(n)) => {
+                    let mut bad = None;
+                    if n != total || flen != total { bad = Some(format!("reported {n} bytes, output file has {flen} bytes, the plan describes {total} bytes")); }
+                    else {
+                        use std::io::{Read, Seek, SeekFrom};
+                        let mut f = std::fs::File::open(&out_path).unwrap();
+                        for _ in 0..200 {
+                            let pos = rng.below(total - 4096); let mut buf = [0u8; 4096];
+                            f.seek(SeekFrom::Start(pos)).unwrap(); f.read_exact(&mut buf).unwrap();
+                            let ok = (0..4096u64).all(|i| buf[i as usize] == term[((pos + i) % term.len() as u64) as usize]);
+                            if !ok { bad = Some(format!("bytes at offset {pos} differ from the concatenated term data")); break; }
+                        }
+                    }
+                    if let Some(b) = bad { ctx.fail("C17", "huge-file-wrong-output", format!("{writer:?} writer, whole file of {total} bytes: {b}"), replay); }
+                }
+                Ok(Err(e)) => ctx.fail("C17", "huge-file-error", format!("{writer:?} writer failed on a whole file of {total} bytes: {e:?}"), replay),
+                Err(_) => ctx.fail("C17", "huge-file-panic", format!("{writer:?} writer panicked on a whole file of {total} bytes"), replay),
+            }
+            ctx.stat("huge_total_runs");
+            let _ = std::fs::remove_file(&out_path);
+            let _ = std::fs::remove_dir_all(tmp_root.join(format!("cache_huge_{writer:?}")));
+        }
+        for m in mocks.iter_mut() { m.delete(); }
+    }
+
     std::panic::set_hook(prev_hook);
     let _ = std::fs::remove_dir_all(&tmp_root);
 }
